@@ -29,8 +29,13 @@ def build(rng, size, cs, delegated, corruption, chunk_how):
     r = s.root(cs=cs)
     if delegated:
         d = s.targets(version=1, targets=tgt_entries, sigs=scen.valid([7]))
-        tgt = s.targets(version=1, targets=[], delegations={"keys": [7], "roles": [
-            {"name": "d", "keyids": [7], "threshold": 1, "paths": ["*"]}]})
+        drole = {"name": "d", "keyids": [7], "threshold": 1, "paths": ["*"]}
+        if rng.random() < 0.35:
+            # delegation by hashed bins: the bins of the RESOLVED names of the two targets
+            res_name = {"x/../y.dat": "y.dat"}.get(name, name)
+            drole = {"name": "d", "keyids": [7], "threshold": 1,
+                     "prefixes": sorted({hashlib.sha256(n.encode()).hexdigest()[:2] for n in (res_name, "other")})}
+        tgt = s.targets(version=1, targets=[], delegations={"keys": [7], "roles": [drole]})
         dl = [("d", 1, d)]
         metas = {"targets.json": scen.meta(tgt, 1), "d.json": scen.meta(d, 1)}
         if rng.random() < 0.5:
